@@ -38,18 +38,19 @@ var RemoteNames = []string{"origin", "alt"}
 // with two remotes two replicas can each publish their own branch and fetch the other's, so both
 // merge the same pair of heads).
 type World struct {
-	Dir         string
-	RemotePath  string   // path of "origin"
-	Remotes     []string // names
-	RemotePaths map[string]string
-	IdEdits     int // identity versions committed by idedit actions
-	GCs         int // gc actions executed
-	PullAPIs    int // pulls through bug.Pull / identity.Pull
-	StaleClocks int // restarts with lowered clock files
-	Replicas    []*Replica
-	AuthorIds   []string
-	Seed        uint64
-	opSeq       int
+	Dir            string
+	RemotePath     string   // path of "origin"
+	Remotes        []string // names
+	RemotePaths    map[string]string
+	IdEdits        int // identity versions committed by idedit actions
+	GCs            int // gc actions executed
+	PullAPIs       int // pulls through bug.Pull / identity.Pull
+	StaleClocks    int // restarts with lowered clock files
+	ForeignIdEdits int // edits of an identity by a replica that does not own it (identities may diverge)
+	Replicas       []*Replica
+	AuthorIds      []string
+	Seed           uint64
+	opSeq          int
 
 	// model
 	BugIds    []string                       // creation order
@@ -220,14 +221,14 @@ func GenActions(nReplicas, minLen, maxLen, nFiles int) *rapid.Generator[[]Action
 // GenActionsR is GenActions for a world with nRemotes remotes; it also draws edits of the replicas' own identities.
 func GenActionsR(nReplicas, nRemotes, minLen, maxLen, nFiles int) *rapid.Generator[[]Action] {
 	one := rapid.Custom(func(t *rapid.T) Action {
-		kind := rapid.SampledFrom([]string{"new", "edit", "edit", "edit", "edit", "edit", "edit", "push", "push", "push", "pull", "pull", "pull", "pull", "idedit", "gc", "fetch", "pullapi", "staleclock"}).Draw(t, "kind")
+		kind := rapid.SampledFrom([]string{"new", "edit", "edit", "edit", "edit", "edit", "edit", "push", "push", "push", "pull", "pull", "pull", "pull", "idedit", "gc", "fetch", "pullapi", "staleclock", "idforeign"}).Draw(t, "kind")
 		a := Action{Kind: kind, R: rapid.IntRange(0, nReplicas-1).Draw(t, "r")}
 		switch kind {
 		case "push", "pull", "fetch", "pullapi":
 			if nRemotes > 1 {
 				a.Rem = rapid.IntRange(0, nRemotes-1).Draw(t, "rem")
 			}
-		case "idedit":
+		case "idedit", "idforeign":
 			a.N = rapid.IntRange(1, 3).Draw(t, "n")
 		case "new":
 			a.Ops = append(a.Ops, GenCreateSpec(nReplicas, nFiles).Draw(t, "create"))
@@ -369,7 +370,12 @@ func (w *World) Exec(a Action) error {
 	case "pull":
 		_, err = w.PullFrom(r, w.remoteName(a.Rem))
 	case "idedit":
-		err = w.editIdentity(r, a.N)
+		err = w.editIdentity(r, r.Idx, a.N)
+	case "idforeign":
+		// somebody edits an identity that another replica also edits (one person on two machines): the two
+		// histories of that identity may diverge, and the merge of the later arrival is refused
+		err = w.editIdentity(r, (r.Idx+1)%len(w.AuthorIds), a.N)
+		w.ForeignIdEdits++
 	case "gc":
 		err = w.gc(r)
 	case "fetch":
@@ -497,15 +503,15 @@ func (w *World) execEdit(r *Replica, bugId *string, specs []OpSpec) error {
 
 // editIdentity appends n versions to the replica's own identity (identity number r.Idx: nobody else
 // edits it, so identities never diverge and every identity merge is a fast-forward or nothing).
-func (w *World) editIdentity(r *Replica, n int) error {
-	id := entity.Id(w.AuthorIds[r.Idx])
+func (w *World) editIdentity(r *Replica, which, n int) error {
+	id := entity.Id(w.AuthorIds[which])
 	i, err := identity.ReadLocal(r.Repo, id)
 	if err != nil {
 		return &ExecError{"read-own-identity/" + Normalize(err.Error()), err.Error()}
 	}
 	for k := 0; k < n; k++ {
 		w.IdEdits++
-		name := fmt.Sprintf("user%d-v%d", r.Idx, w.IdEdits)
+		name := fmt.Sprintf("user%d-v%d-by-r%d", which, w.IdEdits, r.Idx)
 		if err := i.Mutate(r.Repo, func(m *identity.Mutator) { m.Name = name }); err != nil {
 			return &ExecError{"identity-mutate/" + Normalize(err.Error()), err.Error()}
 		}
@@ -543,6 +549,9 @@ func (w *World) gc(r *Replica) error {
 // return without error, everything the remote-tracking refs hold is merged into the local bugs.
 func (w *World) pullAPI(r *Replica, remoteName string) error {
 	if err := identity.Pull(r.Repo, remoteName); err != nil {
+		if w.ForeignIdEdits > 0 && strings.Contains(err.Error(), "merge failure") {
+			return nil // a diverged identity is refused and the packaged pull stops there: legal
+		}
 		return &ExecError{"identity.Pull/" + Normalize(err.Error()), err.Error()}
 	}
 	if err := bug.Pull(r.Repo, Resolvers(r.Repo), remoteName, r.Authors[r.Idx]); err != nil {
